@@ -86,7 +86,11 @@ struct duration {
             or (ratio_divide<Period2, period>::den == 1 and not treat_as_floating_point_v<Rep2>)
         )
     constexpr duration(duration<Rep2, Period2> const& other) noexcept
-        : _rep(static_cast<Rep>(other.count() * ratio_divide<Period2, period>::num))
+        : _rep(static_cast<Rep>(
+              static_cast<common_type_t<Rep, Rep2, intmax_t>>(other.count())
+              * static_cast<common_type_t<Rep, Rep2, intmax_t>>(ratio_divide<Period2, period>::num)
+              / static_cast<common_type_t<Rep, Rep2, intmax_t>>(ratio_divide<Period2, period>::den)
+          ))
     {
     }
 
